@@ -178,7 +178,7 @@ func (s *State) checkFrameAll(where, what string) {
 		if fr == nil || fr.Unrestricted {
 			return
 		}
-		s.oblige("frame", "havoc-all@"+scope, s.defaultProps(), "false", where, what+" inside a scope with a modifies clause")
+		s.oblige("frame", "havoc-all@"+scope, s.structProps(), "false", where, what+" inside a scope with a modifies clause")
 	}
 	check(s.fnFrame, "func")
 	for _, lf := range s.loops {
@@ -198,7 +198,7 @@ func (s *State) checkFrameWhole(base, where, what string) {
 		if fr == nil || fr.Unrestricted || fr.Whole[base] {
 			return
 		}
-		s.oblige("frame", "whole:"+base+"@"+scope, s.defaultProps(), "false", where, what+" may modify "+base+" on any object; scope allows only: "+fr.Desc)
+		s.oblige("frame", "whole:"+base+"@"+scope, s.structProps(), "false", where, what+" may modify "+base+" on any object; scope allows only: "+fr.Desc)
 	}
 	check(s.fnFrame, "func")
 	for _, lf := range s.loops {
